@@ -275,6 +275,24 @@ class SymFloat(core.SymFloatBase):
             if mk_bool(z3.Or(z3.fpIsNaN(self.z), z3.fpIsInf(self.z))):
                 return self          # round(nan/inf, n) returns the value itself
             return havoc_float()
+        if MODE.get("round_ndigits") == "relaxed" and isinstance(n, int) and 0 <= n <= 15:
+            # over-approximation of decimal rounding: r is ANY double with |r - x| <= 0.5 * 10^-n (slightly widened), r == x
+            # for x == 0, sign preserved.  Sound for proving; counterexamples must be replayed (harness marks them abstract).
+            if mk_bool(z3.Or(z3.fpIsNaN(self.z), z3.fpIsInf(self.z))):
+                return self
+            MODE["relaxed_used"] = True
+            r = havoc_float_finite()
+            tol = z3.FPVal(0.5 * 10.0 ** (-n) * (1 + 1e-9), F64)
+            c = ctx()
+            c.solver.add(z3.Implies(z3.fpIsZero(self.z), z3.fpEQ(r.z, self.z)))
+            c.solver.add(z3.fpLEQ(z3.fpAbs(z3.fpSub(RNE, r.z, self.z)), tol))
+            c.solver.add(z3.Implies(z3.fpGEQ(self.z, z3.FPVal(0.0, F64)), z3.fpGEQ(r.z, z3.FPVal(0.0, F64))))
+            c.solver.add(z3.Implies(z3.fpLEQ(self.z, z3.FPVal(0.0, F64)), z3.fpLEQ(r.z, z3.FPVal(0.0, F64))))
+            c.model = None
+            if self.iv is not None:
+                t = 0.5 * 10.0 ** (-n) * (1 + 1e-9)
+                r.iv = (self.iv[0] - t if self.iv[0] < 0 else max(0.0, self.iv[0] - t), self.iv[1] + t if self.iv[1] > 0 else min(0.0, self.iv[1] + t))
+            return r
         raise Unsupported("round(float, ndigits): correctly-rounded decimal rounding is not modelled")
 
     def __format__(self, spec):
